@@ -191,49 +191,86 @@ def intersection_filter(ctx, repo):
 
 
 def observers(ctx, repo):
-    cls = "Observable"
-    w = repo.own_method(cls, "watch")
-    g = cfg_of(w)
-    obs = w.node.args.args[1].arg
-    apps = [(n, c) for n, c in calls_named(g, "append") if receiver(c) == "self._observers"]
-    ctx.ob("R5", "Observable.watch::append", len(apps) == 1, "watch does not append the observer exactly once", w.loc)
-    for n, c in apps:
-        facts = g.guard_atoms(n)
-        ctx.ob("R5", "Observable.watch::no-duplicates", (f"{obs} in self._observers", False) in facts,
-               f"watch appends without testing membership first (an observer registered twice would be called twice); guards {sorted(facts)}", loc(w, n.ast))
-        ctx.ob("R5", "Observable.watch::appends-the-observer", ast.unparse(c.args[0]) == obs, "watch appends something else", loc(w, n.ast))
-    u = repo.own_method(cls, "unwatch")
-    ok = any(isinstance(n, ast.Call) and call_name(n) == "remove" and receiver(n) == "self._observers" for n in ast.walk(u.node))
-    ctx.ob("R5", "Observable.unwatch::removes", ok, "unwatch does not remove the observer from the list", u.loc)
-    ua = repo.own_method(cls, "unwatch_all")
-    ok = any(isinstance(n, ast.Call) and call_name(n) == "clear" and receiver(n) == "self._observers" for n in ast.walk(ua.node)) or \
-        any(isinstance(n, ast.Assign) and ast.unparse(n.targets[0]) == "self._observers" and isinstance(n.value, ast.List) and not n.value.elts for n in ast.walk(ua.node))
-    ctx.ob("R5", "Observable.unwatch_all::clears", ok, "unwatch_all does not empty the list", ua.loc)
-    oc = repo.own_method(cls, "_on_change")
-    go = cfg_of(oc)
-    p = [a.arg for a in oc.node.args.args]
-    calls = [(n, c) for n in go.stmt_nodes() for c in n.calls() if isinstance(c.func, ast.Name)]
-    lp = None
-    ok = False
-    for n, c in calls:
-        l = go.loop_of(n)
-        if l is not None and l.kind == "for" and ast.unparse(l.ast.iter) == "self._observers" and c.func.id == ast.unparse(l.ast.target):
-            ok = [ast.unparse(a) for a in c.args] == p[1:4]
-            lp = l
-            gs = [x for x in go.guards(n, entry=l, cut_back=True) if x[0] is not l]
-            ok = ok and not gs
-    ctx.ob("R5", "Observable._on_change::calls-each-observer-once", ok and len([1 for n, c in calls if go.loop_of(n) is lp]) == 1,
-           "_on_change does not call every element of the live observer list exactly once with (sender, old, new)", oc.loc)
-    # who may write the list
+    """R5 by interpretation: an Observable is built by its own constructor and driven through
+    watch / unwatch / unwatch_all / _on_change with model observers.  Observers come in two kinds, as in
+    real use: plain callables, and *bound methods* - two separately obtained bound methods of one listener are
+    equal but not identical (every automation class registers `self._on_change` that way)."""
+    from ..absint import ClassRef, Interp, Native, Obj, PyRaise, Undecided
+    cls = repo.cls("Observable")
+    w = repo.method("Observable", "watch")
+
+    class Listener(Native):
+        """a callable with bound-method identity semantics: eq by key, a fresh object per 'access'"""
+
+        def __init__(self, key, log):
+            super().__init__(lambda a, k: log.append((key, tuple(a))), f"listener<{key}>")
+            self.key = key
+
+        def __eq__(self, o):
+            return isinstance(o, Listener) and o.key == self.key
+
+        def __hash__(self):
+            return hash(self.key)
+
+    def run(script):
+        interp = Interp(repo)
+        log = []
+        try:
+            o = interp.apply(ClassRef(cls), [], {})
+        except (PyRaise, Undecided) as e:
+            raise AnalysisError(f"Observable() cannot be constructed by interpretation: {e}")
+        for step in script:
+            op, arg = step
+            try:
+                interp.steps = 0
+                if op in ("watch", "unwatch"):
+                    interp.call(repo.method("Observable", op), o, [Listener(arg, log)])
+                elif op == "unwatch_all":
+                    interp.call(repo.method("Observable", "unwatch_all"), o, [])
+                elif op == "change":
+                    interp.call(repo.method("Observable", "_on_change"), o, list(arg))
+            except PyRaise as e:
+                log.append(("raise", op, e.what))
+            except Undecided as e:
+                raise AnalysisError(f"Observable.{op}: cannot interpret: {e}")
+        return log
+
+    ev = ("S", 1, 2)
+    cases = [
+        ("registered-twice-called-once", [("watch", "a"), ("watch", "a"), ("change", ev)], [("a", ev)],
+         "an observer registered twice (two equal bound methods of one listener) is called twice per change"),
+        ("removed-never-called", [("watch", "a"), ("watch", "a"), ("unwatch", "a"), ("change", ev)], [],
+         "an observer that was registered twice and then removed is still called"),
+        ("each-once-in-order", [("watch", "a"), ("watch", "b"), ("change", ev)], [("a", ev), ("b", ev)],
+         "two observers are not each called exactly once, in registration order, with (sender, old, new)"),
+        ("unwatch-one-keeps-other", [("watch", "a"), ("watch", "b"), ("unwatch", "a"), ("change", ev)], [("b", ev)],
+         "removing one observer does not leave exactly the other one"),
+        ("unwatch-all-clears", [("watch", "a"), ("watch", "b"), ("unwatch_all", None), ("change", ev)], [],
+         "unwatch_all leaves observers behind"),
+        ("re-register-after-remove", [("watch", "a"), ("unwatch", "a"), ("watch", "a"), ("change", ev)], [("a", ev)],
+         "an observer cannot be registered again after removal"),
+    ]
+    for key, script, want, what in cases:
+        got = run(script)
+        ctx.ob("R5", f"Observable::{key}", got == want, f"{what}: calls {got}, expected {want}", w.loc,
+               sample={"rule": "R5", "script": [list(map(str, s)) for s in script], "calls": [str(g) for g in got]})
+    # who may write the list (the attribute __init__ binds to a list display)
+    init = repo.method("Observable", "__init__")
+    lists = [t.attr for n in ast.walk(init.node) if isinstance(n, (ast.Assign, ast.AnnAssign)) and isinstance(getattr(n, "value", None), ast.List)
+             for t in (n.targets if isinstance(n, ast.Assign) else [n.target]) if isinstance(t, ast.Attribute)]
+    if len(lists) != 1:
+        ctx.error(f"Observable.__init__: observer list not identified by role ({lists})")
+        return
+    attr = lists[0]
     writers = set()
     for fi in repo.all_functions():
         for n in walk_no_nested(fi.node):
-            if isinstance(n, ast.Attribute) and n.attr == "_observers" and isinstance(n.ctx, ast.Store):
+            if isinstance(n, ast.Attribute) and n.attr == attr and isinstance(n.ctx, ast.Store):
                 writers.add(fi.qual)
-            if isinstance(n, ast.Call) and (receiver(n) or "").endswith("._observers") and call_name(n) in ("append", "remove", "clear", "insert", "extend", "pop"):
+            if isinstance(n, ast.Call) and (receiver(n) or "").endswith("." + attr) and call_name(n) in ("append", "remove", "clear", "insert", "extend", "pop"):
                 writers.add(fi.qual)
     allowed = {"Observable.__init__", "Observable.watch", "Observable.unwatch", "Observable.unwatch_all"}
-    ctx.ob("R5", "observer-list::who-may-write", writers <= allowed, f"observer list also modified by {sorted(writers - allowed)}")
+    ctx.ob("R5", "observer-list::who-may-write", writers <= allowed, f"observer list `{attr}` also modified by {sorted(writers - allowed)}")
 
 
 def check(ctx):
@@ -242,7 +279,7 @@ def check(ctx):
     ctx.rule("R2", "exactly one status_block_changed call per accessor: single site in an un-nested, unconditional loop over accessors.values() with (offset, len(segment), previous)")
     ctx.rule("R3", "decision on decoded values of one decoder: old = _get_value(previous), new = value (= _get_value()), _on_change(self, old, new) guarded exactly by old != new")
     ctx.rule("R4", "intersection filter sound: the early return is taken only when [offset,offset+len) and [pos,pos+length) are disjoint - all orderings of the end points enumerated (Order domain); filtering less is harmless because the decoded values are then equal")
-    ctx.rule("R5", "observer list: watch tests membership before append; unwatch removes; unwatch_all clears; _on_change calls each live observer once; no other writer")
+    ctx.rule("R5", "observer list, by interpretation with plain and bound-method-like observers: registered twice -> called once; removed -> never called; each observer once, in registration order, with (sender, old, new); unwatch_all clears; no other writer of the list")
     for c in STRUCT_CLASSES:
         swap_then_notify(ctx, repo, c)
     decision(ctx, repo)
